@@ -16,7 +16,8 @@ def stateless_stage(rng):
     if r < 0.58:
         return ('fields', rng.choice(['only', 'except']), rng.sample(gen.ANY_COLS, rng.randint(1, 4)))
     if r < 0.70:
-        return ('split', rng.choice([None, ' ', 'a', ', ']), gen.col_ref(rng, ['s', 't', 'k']), rng.choice([None, col('parts'), col('obj', ('k', 'p'))]))
+        return ('split', rng.choice([None, ' ', 'a', ', ']), gen.col_ref(rng, ['s', 't', 'k']), rng.choice([None, col('parts'), col('obj', ('k', 'p')), col('arr', ('ix', rng.choice([0, 1, -1, 2, 3, -2, -4, -5, 4, 7, 99]))),
+                            col('obj', ('k', 'q'), ('ix', rng.choice([0, -1, 1, 5, -3])))]))
     if r < 0.76:
         return ('json', gen.col_ref(rng, ['s', 't', 'js']))
     if r < 0.80:
@@ -141,6 +142,21 @@ def explore(ctx):
                     extra = [k for k in row if k not in b or not aglib.same(row[k], b[k])]
                     if extra:
                         failures.append({'kind': 'spec', 'what': 'fields added or changed a field: %r' % extra, 'payload': payload(AB)})
+                        break
+                elif stages[1][0] == 'split' and stages[1][3] is not None and stages[1][3][1] == 'arr' and len(stages[1][3][2]) == 1 \
+                        and isinstance(b.get('arr'), list) and not any(isinstance(x, float) for x in b['arr']):
+                    # a named array slot: only that element may change, and a slot that does not exist cannot be written
+                    K = stages[1][3][2][0][1]
+                    n = len(b['arr'])
+                    idx = K if K >= 0 else n + K
+                    na = row.get('arr')
+                    if not (0 <= idx < n):
+                        failures.append({'kind': 'spec', 'what': 'split wrote to arr[%d] of a %d-element array (no such slot): the row should have been dropped with an error' % (K, n),
+                                         'payload': payload(AB, {'row_id': row.get('id')})})
+                        break
+                    if not isinstance(na, list) or len(na) != n or any(not aglib.same(x, y) for j, (x, y) in enumerate(zip(na, b['arr'])) if j != idx):
+                        failures.append({'kind': 'spec', 'what': 'split as arr[%d] changed an element other than the one it names: %r -> %r' % (K, b['arr'], na),
+                                         'payload': payload(AB, {'row_id': row.get('id')})})
                         break
                 elif w is not None:
                     changed = [k for k in b if k not in w and (k not in row or not aglib.same(row[k], b[k]))]
